@@ -332,6 +332,11 @@ qb_log_blackbox_print_from_file(const char *bb_filename)
 
 		function = ptr;
 		ptr += fn_size;
+		if (function[fn_size - 1] != '\0') {
+			printf("ERROR Corrupt file: function name not terminated\n");
+			err = -EIO;
+			goto cleanup;
+		}
 
 		/* timestamp size & content */
 		if (have_timespecs) {
@@ -356,7 +361,8 @@ qb_log_blackbox_print_from_file(const char *bb_filename)
 		}
 		/* message length */
 		memcpy(&msg_len, ptr, sizeof(uint32_t));
-		if (msg_len > QB_LOG_MAX_LEN || msg_len <= 0) {
+		if (msg_len > QB_LOG_MAX_LEN || msg_len <= 0 ||
+		    msg_len > bytes_read - (ptr + sizeof(uint32_t) - chunk)) {
 #ifndef S_SPLINT_S
 			printf("ERROR Corrupt file: msg_len out of bounds %" PRIu32 "\n", msg_len);
 			err = -EIO;
@@ -367,8 +373,10 @@ qb_log_blackbox_print_from_file(const char *bb_filename)
 		ptr += sizeof(uint32_t);
 
 		/* message content */
-		len = qb_vsnprintf_deserialize(message, QB_LOG_MAX_LEN, ptr);
-		assert(len > 0);
+		len = qb_vsnprintf_deserialize_n(message, sizeof(message), ptr, msg_len);
+		if (len == 0 || len >= sizeof(message)) {
+			len = sizeof(message) - 1;
+		}
 		message[len] = '\0';
 		len--;
 		while (len > 0 && (message[len] == '\n' || message[len] == '\0')) {
